@@ -104,6 +104,21 @@ def session(spec):
     wd = Path(tempfile.mkdtemp(prefix="c08_"))
     out = {"digests": [], "labels": [], "raised": ""}
     try:
+        if spec.get("conf_only"):
+            # confidence assignment alone, on heavily tied scores, with every random source left at its default: the tie
+            # breaking inside the protein level must not depend on how often the function was called before in this process
+            import pandas as pd
+            ds, proteins = build(spec, wd)
+            f1 = pd.read_csv(ds.filename, sep="\t")["f1"].to_numpy(dtype=float)
+            dest = wd / "res"
+            dest.mkdir()
+            mokapot.assign_confidence([ds], max_workers=spec.get("workers", 1), scores=[np.round(f1)], descs=[True], eval_fdr=0.05,
+                                      dest_dir=dest, prefixes=[None], decoys=True, proteins=proteins,
+                                      peps_algorithm=spec.get("peps", "qvality"))
+            for fn in sorted(os.listdir(dest)):
+                out["labels"].append("file:" + fn)
+                out["digests"].append(sha((dest / fn).read_bytes()))
+            return out
         ds, proteins = build(spec, wd)
         tok = brewrun.new_recorder()
         rec = brewrun._REC[tok]
